@@ -1,12 +1,13 @@
 (* Correspondence evaluation for the file scenarios. *)
-From UV Require Export File.Builder File.Reader Corr.Fp.
+From UV Require Export File.Builder File.Trickle File.Reader Corr.Fp.
 Local Open Scope N_scope.
 
 (* ---- builds ---- *)
 Record fbuild_case := mk_fbuild {
   fb_width : N; fb_lens : list N; fb_seed : N;
   fb_built : option (N * N);      (* fingerprint of the stored DAG, returned size *)
-  fb_ref : option (N * N)         (* boxo balanced layout: fingerprint, Size() *)
+  fb_ref : option (N * N);        (* boxo balanced layout: fingerprint, Size() *)
+  fb_trickle : option (N * N)     (* boxo trickle layout (raw leaves) over the same chunks: fingerprint, Size() *)
 }.
 
 Definition fb_chunks (c : fbuild_case) : list bytes :=
@@ -25,6 +26,10 @@ Definition fbuild_ok (c : fbuild_case) : bool :=
   end
   && match fb_ref c with
      | Some o => let '(root, sz) := ref_layout w chunks in pairN_eqb (fp root, sz) o
+     | None => true
+     end
+  && match fb_trickle c with
+     | Some o => let '(root, sz) := trickle_layout w chunks in pairN_eqb (fp root, sz) o
      | None => true
      end.
 Definition mismatches_fbuild (cs : list fbuild_case) : list N := mismatches fbuild_ok cs.
